@@ -732,6 +732,21 @@ fn reply_tapes(rng: &mut Rng, own: u16) -> Vec<(Vec<u8>, &'static str)> {
     }
     v.push((with_sentinel(refs::wire(&RefMsg::Unknown { addr: own, ty: 0x42, data: vec![9, 9] })), "reply_unknown_frame"));
     v.push((with_sentinel(refs::wire(&RefMsg::Data { offset: 16, data: rng.bytes(16) })), "reply_data_frame"));
+    // near twins of known replies: a state report's / an acknowledgement's frame with one more data byte behind its code
+    // (or none at all) is an unknown frame, and comes back as one
+    for s in 0..N_STATES {
+        let code = refs::STATES[s].1;
+        for data in [vec![code, 0x00], vec![code, code], vec![code; 16]] {
+            v.push((with_sentinel(refs::wire(&RefMsg::Unknown { addr: own, ty: 4, data })), "reply_near_twin_of_a_known_reply"));
+        }
+    }
+    for o in 0..N_OPS {
+        let code = refs::OPS[o].2;
+        v.push((with_sentinel(refs::wire(&RefMsg::Unknown { addr: own, ty: 5, data: vec![code, 0x00] })), "reply_near_twin_of_a_known_reply"));
+        v.push((with_sentinel(refs::wire(&RefMsg::Unknown { addr: own, ty: 5, data: vec![code, code, code] })), "reply_near_twin_of_a_known_reply"));
+    }
+    v.push((with_sentinel(refs::wire(&RefMsg::Unknown { addr: own, ty: 4, data: vec![] })), "reply_near_twin_of_a_known_reply"));
+    v.push((with_sentinel(refs::wire(&RefMsg::Unknown { addr: own, ty: 5, data: vec![] })), "reply_near_twin_of_a_known_reply"));
     v.push((with_sentinel(refs::wire(&RefMsg::Report(own, S_CFG_RECV)).to_ascii_lowercase()), "reply_lower_case"));
     for n in [253usize, 254, 255] {
         v.push((with_sentinel(refs::wire(&RefMsg::Data { offset: rng.u16(), data: rng.bytes(n) })), "reply_maximum_length_frame"));
